@@ -756,6 +756,9 @@ impl<'a> Exec<'a> {
                 if exp.len() < table.rows.len() && !exp.is_empty() {
                     probe(&format!("align_filter_{}_removed_some", a.filter.cli()));
                 }
+                if exp.len() > 8192 {
+                    probe("align_with_more_than_8192_columns");
+                }
                 if table.rows.values().any(|r| r.iter().filter(|b| **b != b'-').count() == thr) {
                     probe("align_threshold_equals_a_row_count");
                 }
@@ -1045,6 +1048,7 @@ impl StoreWorkload {
         let ss = rng.chance(30);
         let max_n = match (focus, tier) {
             ("C06", Tier::Thorough) | ("C14", Tier::Thorough) => 12,
+            ("C06", _) | ("C14", _) if rng.chance(20) => 12,
             _ => 8,
         };
         let n = match focus {
@@ -1058,7 +1062,7 @@ impl StoreWorkload {
             o.repeats = false;
             o.palindromes = false;
         }
-        if focus == "C14" && rng.chance(if tier == Tier::Quick { 2 } else { 4 }) {
+        if matches!(focus, "C14" | "C06") && rng.chance(if tier == Tier::Quick { 2 } else { 4 }) {
             // a large table (tens of thousands of variable rows): per-pair work is then big
             // enough for any chunked / parallel accumulation to split it
             let k = *rng.pick(&[21usize, 31, 33]);
@@ -1077,11 +1081,17 @@ impl StoreWorkload {
                 })
                 .collect();
             let mut ops = vec![Op::Build { out: "b1".into(), samples: (0..n).collect(), k, single_strand: rng.chance(30), list: false, threads: 1 }];
-            for t in [1usize, 2, 4] {
-                ops.push(Op::Distance { file: "b1".into(), min_count: 0, pct: None, allow_ambig: rng.chance(50), threads: t });
-            }
-            if n == 3 {
-                ops.push(Op::Distance { file: "b1".into(), min_count: 2, pct: None, allow_ambig: false, threads: 3 });
+            if focus == "C14" {
+                for t in [1usize, 2, 4] {
+                    ops.push(Op::Distance { file: "b1".into(), min_count: 0, pct: None, allow_ambig: rng.chance(50), threads: t });
+                }
+                if n == 3 {
+                    ops.push(Op::Distance { file: "b1".into(), min_count: 2, pct: None, allow_ambig: false, threads: 3 });
+                }
+            } else {
+                // tens of thousands of columns
+                ops.push(Op::Align { file: "b1".into(), a: AlignJ { min_count: 0, pct: None, filter: SiteFilter::NoFilter, ambig_missing: false, ambig_mask: false, no_gap_only: false } });
+                ops.push(Op::Align { file: "b1".into(), a: gen_alignj(&mut rng, n) });
             }
             return StoreCase { fastq: BTreeMap::new(), focus: focus.to_string(), samples, extra: BTreeMap::new(), ops, sim_seed: rng.next_u64() >> 1 };
         }
